@@ -34,6 +34,9 @@ CLAIMS = {
  "C14": ("model_checking",
    "Each law of the statement is one solver obligation per kind pattern through the real Generate/Eval code: symmetry/reflexivity of =, Int/Float by numeric value (independent integer formulation), irreflexive/asymmetric/transitive < on all eight Int/Float patterns and strings, != > <= >= consistent with = and <, incomparable operands give errors for all six operators, ~ iff some element equal, min/max/order/switch agree; element-wise lists, key-wise maps in two representations, nested containers. Payloads symbolic: ints |x|<2^53, every float64 incl. NaN/+-0/Inf, strings of 2 symbolic bytes.",
    "kind patterns and container shapes (<=3 entries, nested once) are enumerated; strings longer than 2 bytes only via the concrete pool"),
+ "C15": ("model_checking",
+   "Parser[string] with comments enabled (comfort on/off): for 4 programs (operators, calls, index, member, method, closure, string, quoted identifier, float) the separator between one pair of adjacent tokens is SYMBOLIC - kind by sym.Choice (nothing where punctuation allows, two blanks, line comment, tight block comment, spaced block comment followed by a line comment) with symbolic contents over {blank TAB CR LF} resp. {x * / quote apostrophe LF} - all other separators one blank: the AST equals the one of the canonical and of the one-token-per-line layout, every node reports the line of its anchor token (1 + number of LF bytes before it, the anchor taken from the one-token-per-line parse), a syntax error behind the program reports the line of the offending token; string literals of n<=2 (thorough 3) symbolic runes over all of Unicode written with the escapes \\ \" \n \r \t denote exactly that string, quoted identifiers their content; the typographic aliases and superscripts equal their ASCII spelling; comfort-mode juxtapositions number/identifier/')' x number/identifier/'(' in four contexts equal the explicit product, identifier+'(' stays a call.",
+   "one symbolic separator per job (two in none); separator contents of 2 bytes; the layout oracle for 'no separator' is restricted to pairs with punctuation on one side; keywords (let/if/...) layouts are not varied"),
  "C17": ("model_checking",
    "The bytes written by export.JSON() for value trees containing strings/keys of n symbolic runes (every Unicode scalar value; n<=2 quick, <=3 thorough) are read by a strict RFC 8259 reference reader executed on the symbolic output: the document is valid and decodes to the expected structure (arrays in order, objects as key sets, scalars as the JSON string of their string form). Trees: scalar, list, key, value, two symbolic keys (sorting), lazy lists, nested, mixed concrete scalars, maps in merged/replaced/mapped/accepted representation.",
    "string length bound; numbers/bools concrete; reference reader trusted (cross-checked against encoding/json natively on every replay)"),
